@@ -39,11 +39,6 @@ impl ModuleContext {
     pub fn try_join(&self, handle: JoinHandle<()>) {
         self.async_ext.write().try_join.push(handle);
     }
-
-    pub(crate) fn reset_join_handles(&self) {
-        self.async_ext.write().must_join.clear();
-        self.async_ext.write().try_join.clear();
-    }
 }
 
 impl AsyncCoreExt {
